@@ -278,6 +278,13 @@ func (ex *Exec) checkAssigns(fr *Frame, ct *Contract, final *State, pc Term) {
 		if strings.HasPrefix(k, "__") || allowed[k] {
 			continue
 		}
+		var rowTerms []Term
+		if rows := ct.AssignRows[k]; len(rows) > 0 {
+			env := ex.entryEnv(fr)
+			for _, rc := range rows {
+				rowTerms = append(rowTerms, ex.term(ex.eval(rc.Expr, env).V, SInt))
+			}
+		}
 		wild := false
 		for a := range allowed {
 			if strings.HasSuffix(a, "*") && strings.HasPrefix(k, strings.TrimSuffix(a, "*")) {
@@ -301,7 +308,11 @@ func (ex *Exec) checkAssigns(fr *Frame, ct *Contract, final *State, pc Term) {
 			g = Eq(cur, init)
 		} else {
 			// unchanged on objects that existed at entry
-			g = T(SBool, fmt.Sprintf("(forall ((r!q Int)) (=> (< r!q alloc0) (= (select %s r!q) (select %s r!q))))", cur.S, init.S))
+			excl := ""
+			for _, rt := range rowTerms {
+				excl += fmt.Sprintf(" (not (= r!q %s))", rt.S)
+			}
+			g = T(SBool, fmt.Sprintf("(forall ((r!q Int)) (=> (and (< r!q alloc0)%s) (= (select %s r!q) (select %s r!q))))", excl, cur.S, init.S))
 		}
 		ex.oblige(fr, "assigns", k, pc, g, token.NoPos)
 	}
